@@ -21,8 +21,8 @@ pub fn write_records(recs: &[Record<DefaultColumnType>]) -> String {
     o
 }
 
-/// encoding with line numbers blanked, `Newline` records dropped, comment lines right-trimmed:
-/// the meaning of a script (what `≈` compares)
+/// encoding with line numbers blanked, `Newline` records dropped, comment lines right-trimmed and
+/// taken one by one: the meaning of a script (what `≈` compares)
 pub fn meaning(recs: &[Record<DefaultColumnType>]) -> Vec<String> {
     let mut v = vec![];
     for r in recs {
@@ -34,9 +34,13 @@ pub fn meaning(recs: &[Record<DefaultColumnType>]) -> Vec<String> {
         match t[0].as_str() {
             "stmt" | "query" | "system" | "sleep" | "subtest" | "halt" | "hash" | "incl" => t[1] = "_".into(),
             "comment" => {
-                for x in t.iter_mut().skip(2) {
-                    *x = hx(unhx(x).trim_end());
+                // a comment says its lines, one by one: how adjacent comment lines are grouped into
+                // records is not part of the meaning (a blanks-only line between two comment lines
+                // splits the record, and the writer drops that line) — same as `Slt.says` in Canon.lean
+                for x in t.iter().skip(2) {
+                    v.push(format!("comment 1 {}", hx(unhx(x).trim_end())));
                 }
+                continue;
             }
             _ => {}
         }
